@@ -1017,14 +1017,16 @@ func init() {
 				return Value{}
 			}
 			r := v.freshValue(st, "ret.lib", retT)
-			v.assumeTypeFacts(st, r)
 			if r.Sort == "Slice" {
-				// a freshly allocated result
+				// a freshly allocated result: above the allocation mark of the call, below the new one. The type facts
+				// (which bound the base by the current mark) are assumed after the mark has moved; assuming them first
+				// contradicted freshness and made everything after such a call unreachable.
 				st.assume("(> " + sliceBase(r.T) + " " + st.alloc + ")")
 				na := v.env.ctx.freshConst("alloc", "Int")
 				st.assume("(>= " + na + " " + sliceBase(r.T) + ")")
 				st.alloc = na
 			}
+			v.assumeTypeFacts(st, r)
 			return r
 		}
 		nativeMods[k] = pureMods
